@@ -6,7 +6,7 @@ UNITS = [
 ]
 TYPES_X86 = 'every argument and the return type symbolic over {intptr, uintptr, i8..u64, f32, f64, mmx64, mask8..64, all 10 element kinds of vec128/256/512}'
 TYPES_A64 = 'every argument and the return type symbolic over {intptr, uintptr, i8..u64, f32, f64, all 10 element kinds of vec128}'
-def HC(fn, n, what, tiers=('quick', 'thorough'), known=None, mem=4, timeout=900, validate_runs=400):
+def HC(fn, n, what, tiers=('quick', 'thorough'), known=None, mem=2, timeout=900, validate_runs=400):
     return Harness('classify', fn, unwind=n + 2, bounds='0..%d arguments; %s; varargs index symbolic where the convention allows varargs; %s' % (n, what, TYPES_A64 if ('a64' in fn or 'aapcs' in fn or 'apple' in fn) else TYPES_X86),
                    tiers=tiers, known=known, mem_gb=mem, timeout=timeout, validate_runs=validate_runs)
 HARNESSES = [
@@ -18,12 +18,12 @@ HARNESSES = [
     HC('h_apple64_12', 12, 'Apple arm64 (Darwin ABI)'),
     HC('h_light32_8', 8, 'light-call 2-4 on x86-32 (AsmJit only: internal consistency)'),
     HC('h_light64_8', 8, 'light-call 2-4 on x86-64 (AsmJit only: internal consistency)'),
-    Harness('argmove', 'h_argmove_x64_int', unwind=6, bounds='x86-64: destination and source type over i8..u64 (64 pairs), source in any GP register or on the stack, any destination register, SSE/AVX mode', mem_gb=4, timeout=600),
-    Harness('argmove', 'h_argmove_x64_fp', unwind=6, bounds='x86-64: destination type float32x1, float64x1, float32x4; source type float32, float64, float32x1, float64x1, float32x4; source in any xmm register or on the stack; SSE/AVX mode; the whole harness lies in the region of known finding C06J (no native twin comparison: the real code evaluates ctz(0), undefined behaviour)', known='C06J', validate_runs=0, mem_gb=4, timeout=600),
-    Harness('argmove', 'h_argmove_x64_kf_C06I', unwind=6, bounds='region of known finding C06I (float32 <-> float64 conversion)', known='C06I', validate_runs=0, mem_gb=4, timeout=600),
+    Harness('argmove', 'h_argmove_x64_int', unwind=6, bounds='x86-64: destination and source type over i8..u64 (64 pairs), source in any GP register or on the stack, any destination register, SSE/AVX mode', mem_gb=1, timeout=600),
+    Harness('argmove', 'h_argmove_x64_fp', unwind=6, bounds='x86-64: destination type float32x1, float64x1, float32x4; source type float32, float64, float32x1, float64x1, float32x4; source in any xmm register or on the stack; SSE/AVX mode; the whole harness lies in the region of known finding C06J (no native twin comparison: the real code evaluates ctz(0), undefined behaviour)', known='C06J', validate_runs=0, mem_gb=1, timeout=600),
+    Harness('argmove', 'h_argmove_x64_kf_C06I', unwind=6, bounds='region of known finding C06I (float32 <-> float64 conversion)', known='C06I', validate_runs=0, mem_gb=1, timeout=600),
     HC('h_sysv64_kf_D6', 12, 'region of known finding D6', known='D6'),
     # no native twin comparison: inside the region the real code reads out of bounds (undefined behaviour), the encoded code stops at the UBSan trap
-    HC('h_win64_kf_D7', 17, 'region of known finding D7 (17 arguments, a by-reference vector at index 16)', known='D7', mem=6, validate_runs=0),
+    HC('h_win64_kf_D7', 17, 'region of known finding D7 (17 arguments, a by-reference vector at index 16)', known='D7', mem=2, validate_runs=0),
     HC('h_sysv64_kf_C06A', 8, 'region of known finding C06A (SysV x86-64)', known='C06A'),
     HC('h_win64_kf_C06B', 8, 'region of known finding C06B', known='C06B'),
     HC('h_vectorcall64_kf_C06C', 8, 'region of known finding C06C', known='C06C'),
@@ -31,12 +31,12 @@ HARNESSES = [
     HC('h_aapcs64_kf_C06E', 12, 'region of known finding C06E (AAPCS64)', known='C06E'),
     HC('h_apple64_kf_C06F', 12, 'region of known finding C06F', known='C06F'),
     HC('h_x86_32_kf_C06G', 8, 'region of known finding C06G', known='C06G'),
-    HC('h_sysv64_20', 20, 'as h_sysv64_8', tiers=('thorough',), mem=8, timeout=2400),
-    HC('h_win64_20', 20, 'as h_win64_8', tiers=('thorough',), mem=8, timeout=2400),
-    HC('h_vectorcall64_20', 20, 'as h_vectorcall64_8', tiers=('thorough',), mem=8, timeout=2400),
-    HC('h_x86_32_20', 20, 'as h_x86_32_8', tiers=('thorough',), mem=8, timeout=4800),
-    HC('h_aapcs64_20', 20, 'as h_aapcs64_12', tiers=('thorough',), mem=8, timeout=2400),
-    HC('h_apple64_20', 20, 'as h_apple64_12', tiers=('thorough',), mem=8, timeout=2400),
+    HC('h_sysv64_20', 20, 'as h_sysv64_8', tiers=('thorough',), mem=5, timeout=2400),
+    HC('h_win64_20', 20, 'as h_win64_8', tiers=('thorough',), mem=5, timeout=2400),
+    HC('h_vectorcall64_20', 20, 'as h_vectorcall64_8', tiers=('thorough',), mem=5, timeout=2400),
+    HC('h_x86_32_20', 20, 'as h_x86_32_8', tiers=('thorough',), mem=5, timeout=4800),
+    HC('h_aapcs64_20', 20, 'as h_aapcs64_12', tiers=('thorough',), mem=5, timeout=2400),
+    HC('h_apple64_20', 20, 'as h_apple64_12', tiers=('thorough',), mem=5, timeout=2400),
 ]
 EXPLANATION = 'bounded symbolic execution (CBMC) of the real FuncDetail::init / emit_args_assignment compiled from /repo; oracle: an independent reference of the platform ABIs and a token machine, both in the harness'
 OUTSIDE = ['more than 20 arguments (API limit 32)', 'float80, mmx32, vec32/vec64 argument type ids', 'thiscall outside Windows (AsmJit documents it as cdecl)',
